@@ -134,16 +134,29 @@ Definition label_is_bad (l : mlabel) : bool :=
   | _ => false
   end.
 
+(** the goroutine a label acts on *)
+Definition label_tid (l : mlabel) : tid := match l with MArrive t _ | MRelease t _ => t end.
+Definition name_of (o : seen) (t : tid) : option name :=
+  match find (fun x => Nat.eqb (fst (fst x)) t) (s_pos o) with Some x => Some (snd (fst x)) | None => None end.
+
 (** over the whole run; [arrived] = the handshake goroutines so far (not the background ones),
-    [waited] = those that have been seen waiting *)
-Fixpoint run_ok (sc : scen) (names : list name) (bad_before : bool) (arrived waited : list tid) (ms : list mstep) : bool :=
+    [waited] = those that have been seen waiting, [wflag] = for each goroutine that has been seen
+    waiting: has an attempt for the scenario's name been denied / failed / been cancelled since it was
+    first seen waiting *)
+Fixpoint run_ok (sc : scen) (names : list name) (bad_before : bool) (arrived waited : list tid)
+                (wflag : list (tid * bool)) (ms : list mstep) : bool :=
   match ms with
   | [] => true
   | m :: r =>
       let o := m_seen m in
       let bad := bad_before || label_is_bad (m_label m) in
+      let bad_here := label_is_bad (m_label m) &&
+                      match name_of o (label_tid (m_label m)) with Some n => Nat.eqb n (sc_name sc) | None => true end in
       let arrived' := match m_label m with MArrive t _ => t :: arrived | _ => arrived end in
-      let waited' := map (fun x => fst (fst x)) (filter (fun x => is_wait (snd x)) (s_pos o)) ++ waited in
+      let now_waiting := map (fun x => fst (fst x)) (filter (fun x => is_wait (snd x)) (s_pos o)) in
+      let waited' := now_waiting ++ waited in
+      let wflag1 := map (fun tb => (fst tb, snd tb || bad_here)) wflag in
+      let wflag' := map (fun t => (t, false)) (filter (fun t => negb (mem_nat t (map fst wflag1))) now_waiting) ++ wflag1 in
       point_ok names o &&
       (* the others wait for the worker and then use what it left: a goroutine that has waited
          never goes to storage or to the issuer itself afterwards (it re-enters with loading off) *)
@@ -156,11 +169,19 @@ Fixpoint run_ok (sc : scen) (names : list name) (bad_before : bool) (arrived wai
        forallb (fun x => negb (mem_nat (fst (fst x)) arrived') ||
                          match snd x with DoneCert _ => true | _ => false end)
                (filter (of_name (sc_name sc)) (s_pos o))) &&
-      (* an expired certificate is not served unless a renewal attempt has failed / been denied *)
-      (negb (sc_expired sc) || bad ||
-       forallb (fun x => match snd x with DoneCert g => negb (Nat.eqb g (sc_old_gen sc)) | _ => true end)
+      (* an expired certificate is not served while its renewal can still succeed, and the others
+         get the new certificate: a handshake answered with the initially cached, expired certificate
+         has waited, and since it was first seen waiting an attempt for the name has been denied,
+         has failed or was cancelled — never after a wait during which every attempt succeeded *)
+      (negb (sc_expired sc) ||
+       forallb (fun x => match snd x with
+                         | DoneCert g =>
+                             negb (Nat.eqb g (sc_old_gen sc)) ||
+                             existsb (fun tb => Nat.eqb (fst tb) (fst (fst x)) && snd tb) wflag'
+                         | _ => true
+                         end)
                (filter (of_name (sc_name sc)) (s_pos o))) &&
-      run_ok sc names bad arrived' waited' r
+      run_ok sc names bad arrived' waited' wflag' r
   end.
 
 (** at the end: everybody finished, both maps empty *)
@@ -172,7 +193,7 @@ Definition end_ok (ms : list mstep) : bool :=
   end.
 
 Definition spec_ok (sc : scen) (names : list name) (complete : bool) (ms : list mstep) : bool :=
-  run_ok sc names false [] [] ms && (negb complete || end_ok ms).
+  run_ok sc names false [] [] [] ms && (negb complete || end_ok ms).
 
 (** ** wire decoding *)
 Definition get_cls : dec cls :=
